@@ -218,8 +218,13 @@ func drainTolerant(data []byte, maxCalls int) ([]*DemuxerData, bool) {
 func HarnessC07Garbage() {
 	s := &sStream{}
 	cc := uint8(5)
+	var first *sUnit
 	for k, n := range []int{190, 12, 200} {
 		u := mkPESPattern(0x100, n, true, k+1)
+		if k == 0 {
+			u = mkPESRich(0x100, n, 1)
+			first = u
+		}
 		p := packetize(u, cc, 184, false)
 		cc += uint8(len(p))
 		s.add(u, p)
@@ -250,6 +255,11 @@ func HarnessC07Garbage() {
 	vassert("C07.garbage.terminates", ended)
 	c, g := perPID(clean, 0x100), perPID(got, 0x100)
 	vassert("C07.garbage.count", len(c) == len(g) && len(c) == 3)
+	if len(g) == 3 {
+		// compared after the whole stream has been read: private data of the first unit is still what was sent
+		vassert("C07.garbage.afpriv", g[0].FirstPacket.AdaptationField != nil && vBytesEq(g[0].FirstPacket.AdaptationField.TransportPrivateData, first.afPriv))
+		vassert("C07.garbage.hdrpriv", vBytesEq(g[0].PES.Header.OptionalHeader.PrivateData, first.pes.opt.ext.priv))
+	}
 	if len(c) == len(g) {
 		for k := range c {
 			vassert("C07.garbage.same", sameData(c[k], g[k]))
